@@ -656,13 +656,35 @@ func TestVerifC24(t *testing.T) { //nolint:cyclop,gocognit,maintidx
 				return pc, rec, false
 			}
 			// NOTE: the gatherer state is already "complete" here (the point sits right after setState)
+			arrivals := sched.Passes(point)
 			sched.Block(point, 1)
 			done := make(chan error, 1)
 			go func() { done <- setLocal(pc, rec) }()
-			if !sched.WaitReached(point, wd) {
+			var sldErr error
+			returned := false
+			if !kit.Eventually(wd, func() bool {
+				if sched.Passes(point) > arrivals {
+					return true
+				}
+				select {
+				case sldErr = <-done:
+					returned = true
+				default:
+				}
+
+				return returned
+			}) {
 				sched.Release("gather.nil.stateComplete")
 
 				return pc, rec, false
+			}
+			if returned {
+				// SetLocalDescription came back without its flush passing the point: the intended park did not happen, but
+				// the history (flush complete while the end-of-gathering callback was parked) is as legitimate as any other
+				run.Count("flush_returned_without_passing_the_parking_point", 1)
+				sched.Release("gather.nil.stateComplete")
+
+				return pc, rec, sldErr == nil
 			}
 			before := sched.Passes("gather.nil.beforePoolCheck")
 			sched.Release("gather.nil.stateComplete")
